@@ -57,6 +57,17 @@ Theorem C06_emitted_template : forall kid sid iv cek content, wf_emit kid sid iv
 Proof. exact emitted_is_template. Qed.
 Print Assumptions C06_emitted_template.
 
+(* every well-formed blob value without algorithm parameters, both layouts: the ContentInfo part is read back by
+   the strict DER reader as exactly the template (one KEKRecipientInfo, versions 2 and 4, ...) *)
+Theorem C06_strict_parse : forall b env kb sc d1 d2, wf_blob b = true -> wfb_blob b = true ->
+  b_enc_cek_parameters b = None -> b_enc_content_parameters b = None ->
+  KeyIdentifier_pack (b_key_identifier b) = Ok kb -> utf8_encode (b_sid b) = Ok sc ->
+  der_oid (b_enc_cek_algorithm b) d1 -> der_oid (b_enc_content_algorithm b) d2 ->
+  exists ci, blob_pack b env = Ok (ci ++ trailing b env) /\
+    strict_parse ci = Some [cms_tree kb sc (b_enc_cek b) d1 None (if env then b_enc_content b else []) d2 None].
+Proof. exact blob_strict_parse. Qed.
+Print Assumptions C06_strict_parse.
+
 (* the hypotheses are satisfiable: 70 000-byte content, non-BMP forest name, both layouts *)
 Definition ex_kid : key_identifier :=
   {| kid_version := 1; kid_flags := 3; kid_l0 := 361; kid_l1 := 16; kid_l2 := 3; kid_rkid := repeat 7 16;
